@@ -220,7 +220,7 @@ pub fn run_c17(ctx: &Ctx) {
             });
         }
     }
-    let n = ctx.n(30_000, 3_000_000);
+    let n = ctx.n(150_000, 7_500_000);
     ctx.run_group("histories", n * 6, false, |c| match c.idx % 6 {
         0 => c17_random::<Lmer1>("Lmer1", c),
         1 => c17_random::<Lmer2>("Lmer2", c),
